@@ -54,7 +54,12 @@ var (
 	nameShopOrder = "shop/order"
 )
 
-var stateKeys = []string{"k1", "k2", "a/b", "user/1/x", "/", "k1/"}
+// (the last three keys begin with an entity type name and the separator: the composite key of such a key is
+// "<type>/<type>/k1", distinct from the composite key of "k1")
+// compositeKey is the documented composite key "<entity type>/<key>", computed without the library.
+func compositeKey(entityType, key string) string { return entityType + "/" + key }
+
+var stateKeys = []string{"k1", "k2", "a/b", "user/1/x", "/", "k1/", entName(SUser{}) + "/k1", entName(SOrder{}) + "/k2", "shop/order/k1"}
 
 type C18Msg struct {
 	Op     string `json:"op"`     // insert update delete reset snap-start snap-end
@@ -290,7 +295,7 @@ func (f *c18Fold) apply(m C18Msg) {
 	if m.Entity == 3 {
 		return
 	}
-	k := coll[m.Entity] + "|" + state.CompositeKey(types[m.Entity], stateKeys[m.Key])
+	k := coll[m.Entity] + "|" + compositeKey(types[m.Entity], stateKeys[m.Key])
 	switch m.Op {
 	case "delete":
 		delete(f.state, k)
@@ -417,13 +422,13 @@ func (sc *C18Scenario) Execute(t *testing.T) *core.Outcome {
 		types := []string{entName(SUser{}), entName(SOrder{}), entName(SNamed{})}
 		for _, key := range stateKeys {
 			u, ok := mat.users.Get(key)
-			_, inFold := fold.state["user|"+state.CompositeKey(types[0], key)]
-			if ok != inFold || (ok && string(mustJSON(u)) != fold.state["user|"+state.CompositeKey(types[0], key)]) {
+			_, inFold := fold.state["user|"+compositeKey(types[0], key)]
+			if ok != inFold || (ok && string(mustJSON(u)) != fold.state["user|"+compositeKey(types[0], key)]) {
 				out.V("get-disagrees", "users.Get(%q) = %v,%v but the fold has present=%v", key, u, ok, inFold)
 			}
 			o, ok := mat.orders.Get(key)
-			_, inFold = fold.state["order|"+state.CompositeKey(types[1], key)]
-			if ok != inFold || (ok && string(mustJSON(o)) != fold.state["order|"+state.CompositeKey(types[1], key)]) {
+			_, inFold = fold.state["order|"+compositeKey(types[1], key)]
+			if ok != inFold || (ok && string(mustJSON(o)) != fold.state["order|"+compositeKey(types[1], key)]) {
 				out.V("get-disagrees", "orders.Get(%q) = %v,%v but the fold has present=%v", key, o, ok, inFold)
 			}
 		}
